@@ -25,8 +25,8 @@ PHANTOM = adt('PhantomData', None)
 
 class World:
     """parsed MIR of the working tree + struct layouts read from the source"""
-    def __init__(self, overflow_checks=True):
-        self.mir_path, self.mir_info = build.mir_dump(overflow_checks=overflow_checks)
+    def __init__(self, overflow_checks=True, features=None):
+        self.mir_path, self.mir_info = build.mir_dump(features or build.ALL_FEATURES, overflow_checks=overflow_checks)
         pk = self.mir_path + '.pickle'
         self.fns, self.consts, self.allocs = load(self.mir_path, REPO)
         self._fields = {}; self._constructed = {}; self.extra_fields = {}
